@@ -308,8 +308,109 @@ def confirm_case(pid, v):
         return {'status': 'replay_error', 'detail': f'{type(e).__name__}: {e}'[:500]}
 
 
+BIN_SYNC = os.path.join(BUILD, 'native', 'debug', 'dp-replay-sync')
+_built_sync = False
+
+
+def build_driver_sync():
+    global _built_sync
+    if _built_sync: return
+    lock = open(os.path.join(BUILD, 'native.lock'), 'w'); fcntl.flock(lock, fcntl.LOCK_EX)
+    try:
+        env = dict(os.environ); env['RUSTFLAGS'] = '--cfg deadpool_verif'; env['CARGO_NET_OFFLINE'] = 'true'
+        r = subprocess.run(['cargo', 'build', '--offline', '--manifest-path', os.path.join(HERE, 'replay_sync', 'Cargo.toml'),
+                            '--target-dir', os.path.join(BUILD, 'native')], env=env, capture_output=True, text=True)
+        if r.returncode != 0: raise ReplayError('native sync driver build failed:\n' + r.stderr[-3000:])
+        _built_sync = True
+    finally:
+        fcntl.flock(lock, fcntl.LOCK_UN); lock.close()
+
+
+def sync_trace(v):
+    acts = [[conv(x) for x in e[1:]] for e in v['trace'] if e[0] == 'act']
+    # the native blocking pool has one thread: tasks run in spawn order
+    ran = []; spawned = 1
+    for a in acts:
+        if a[0] in ('interact', 'drop_wrapper', 'recycle'): spawned += 1
+        if a[0] == 'run':
+            if any(k not in ran for k in range(1, a[1])): return None
+            ran.append(a[1])
+    return {'kind': 'sync', 'manager': v['cfg'].get('manager'), 'backend': v['cfg'].get('backend', {}), 'actions': acts, 'cfg': v['cfg']}
+
+
+def run_engine_sync(prog, trace):
+    from . import w_sync
+    cfg = dict(trace['cfg']); cfg['prefix'] = ()
+    B = w_sync.RecycleBSE(prog, cfg) if cfg.get('manager') else w_sync.SyncBSE(prog, cfg)
+    init = w_sync.SyncBSE.init_states(B)
+    if len(init) != 1: raise ReplayError('engine: ambiguous initial state')
+    st = init[0]; obs = [{'i': -1, 'res': ['pending'], 'events': []}]; vios = []
+    if cfg.get('manager'): pending_mgr = True
+    else: pending_mgr = False
+    def norm(e):
+        if e[0] == 'create_run': return ['create_run', e[2]]
+        if e[0] == 'closure_run': return ['closure_run', e[1], e[3]]
+        if e[0] == 'val_drop': return ['val_drop', e[3]]
+        if e[0] == 'backend': return ['backend', e[1], e[3], e[4]]
+        return None
+    for i, a in enumerate(trace['actions']):
+        if pending_mgr and st.gget('wrapper') is not None and st.gget('mgr') is None:
+            st.gset('mgr', st.alloc(B.manager_value(st)))
+        n0 = len(st.log)
+        succ = B.apply(st, tuple(a))
+        if len(succ) != 1: raise ReplayError(f'engine: action {i} {a} has {len(succ)} successors')
+        s2 = succ[0]
+        vios.extend(B.check(st, tuple(a), s2)); vios.extend(B.check_state(s2))
+        r = (s2.gget('last') or {}).get('res')
+        if a[0] == 'run': res = ['ran']
+        elif a[0] in ('cancel', 'drop_wrapper'): res = ['ok']
+        elif a[0] == 'is_poisoned': res = ['ok', bool(r[1])]
+        else: res = [x for x in r]
+        obs.append({'i': i, 'res': json.loads(json.dumps(res)), 'events': [x for x in (norm(e) for e in s2.log[n0:]) if x]})
+        st = s2
+    return obs, vios
+
+
+def confirm_sync(pid, v, blobs):
+    try:
+        trace = sync_trace(v)
+        h = hashlib.sha1(json.dumps(v['trace'], sort_keys=True, default=str).encode()).hexdigest()[:10]
+        path = os.path.join(HERE, 'replays', f'{pid}-{h}.json'); os.makedirs(os.path.dirname(path), exist_ok=True)
+        if trace is None or (v['cfg'].get('manager') not in (None, 'r2d2')):
+            json.dump({'kind': 'sync-engine-only', 'violation': {'property': pid, 'what': v['what']}, 'trace': v['trace'], 'cfg': v['cfg']}, open(path, 'w'), indent=1)
+            return {'status': 'engine_only', 'path': path,
+                    'detail': 'no native realisation: ' + ('blocking tasks do not run in spawn order in this trace' if trace is None else f'no scriptable native backend for the {v["cfg"].get("manager")} manager')}
+        build_driver_sync()
+        trace['violation'] = {'property': pid, 'what': v['what']}
+        json.dump(trace, open(path, 'w'), indent=1, default=str)
+        r = subprocess.run([BIN_SYNC, path], capture_output=True, text=True, timeout=120)
+        if r.returncode != 0: return {'status': 'replay_error', 'detail': r.stderr[-500:], 'path': path}
+        native = [json.loads(l) for l in r.stdout.splitlines() if l.startswith('{')]
+        prog = program(blobs, v['crates'])
+        engine, vios = run_engine_sync(prog, trace)
+        if len(native) != len(engine): return {'status': 'not_reproduced', 'detail': f'native {len(native)} observations, engine {len(engine)}', 'path': path}
+        for n, e in zip(native, engine):
+            if n['res'] != e['res']: return {'status': 'not_reproduced', 'detail': f'step {n["i"]}: result native {n["res"]} vs engine {e["res"]}', 'path': path}
+            if sorted(map(json.dumps, n['events'])) != sorted(map(json.dumps, e['events'])):
+                return {'status': 'not_reproduced', 'detail': f'step {n["i"]}: events native {n["events"]} vs engine {e["events"]}', 'path': path}
+        if not [x for x in vios if x['property'] == pid]:
+            return {'status': 'not_reproduced', 'detail': 'concrete re-execution did not raise the violation again', 'path': path}
+        return {'status': 'confirmed', 'path': path, 'known': None}
+    except Exception as e:
+        import traceback
+        return {'status': 'replay_error', 'detail': f'{type(e).__name__}: {e} ' + traceback.format_exc()[-500:]}
+
+
 def confirm(pid, v, blobs=None):
     if v.get('native_case') is not None: return confirm_case(pid, v)
+    if v.get('kind') == 'sync': return confirm_sync(pid, v, blobs)
+    if v.get('kind') in ('redisrecycle', 'redisconfig', 'pgmanager'):
+        # no scriptable native backend (a RESP / postgres wire server would be needed): engine evidence only, stated as such
+        h = hashlib.sha1(json.dumps([v['what'], v.get('trace'), v.get('model')], sort_keys=True, default=str).encode()).hexdigest()[:10]
+        path = os.path.join(HERE, 'replays', f'{pid}-{h}.json'); os.makedirs(os.path.dirname(path), exist_ok=True)
+        json.dump({'kind': v['kind'] + '-engine-only', 'violation': {'property': pid, 'what': v['what']}, 'trace': v.get('trace'), 'model': v.get('model'), 'detail': v.get('detail')},
+                  open(path, 'w'), indent=1, default=str)
+        return {'status': 'engine_only', 'path': path, 'detail': 'the environment of this check (redis / postgres client library) has no native stand-in'}
     """replay the counterexample natively; 'confirmed' iff the real crate shows, step by step, exactly the observations
     from which the oracle derived the violation (and the oracle flags it again on the concrete run)"""
     try:
